@@ -60,6 +60,11 @@ with ThreadPoolExecutor(jobs) as ex:
     for name, res in ex.map(one, names):
         out[name] = res
         bad += sum(1 for c in res.values() if (c if isinstance(c, str) else c["rc"]) != 0)
-json.dump(out, open(os.path.join(B, "result.json"), "w"), indent=1)
+# merge into the recorded results: a run over a few (change, check) pairs must not wipe the others
+_rp = os.path.join(B, "result.json")
+_all = json.load(open(_rp)) if os.path.exists(_rp) else {}
+for _k, _v in out.items():
+    _all.setdefault(_k, {}).update(_v)
+json.dump(_all, open(_rp, "w"), indent=1)
 print("benign changes: %d, checks per change: %d, alarms: %d" % (len(names), len(checks), bad))
 sys.exit(1 if bad else 0)
